@@ -303,6 +303,32 @@ def check_context(A, rep):
             rep.ok("C07.d", f"C07.d {g.label}: one capacity is pushed on every path")
         else:
             rep.fail("C07.d", norm_key("C07.d", "context.__enter__", "push"), "entering the backend-wide context does not always push the previous capacity", g.witness(w or []), g.label)
+        # __exit__ is not called when __enter__ raises: an __enter__ that raises (the forced flush of a lowered
+        # capacity met a conflicting file) must itself undo the counter increment and the push
+        for count in (0, 1):
+            b, ge = A.ctx_exit_graph(cls, "backend", count, 0, method="__enter__", fields={"_buffer_capacity": Val("param", "buffer_capacity")})
+            rep.context(ge.label + " (raises)", True)
+            if ge.exc_exit not in ge.live:
+                rep.ok("C07.d", f"C07.d {ge.label}: entering cannot raise")
+                continue
+            incs = [n for n in live(ge) if n.kind == "count" and n["delta"] == 1 and n["counter"][0] == "C"]
+            decs = [n.id for n in live(ge) if n.kind == "count" and n["delta"] == -1 and n["counter"][0] == "C"]
+            pushes_e = [n for n in live(ge) if n.kind == "local_mut" and n["op"] == "append" and own(n)]
+            pops_e = [n.id for n in live(ge) if n.kind == "local_mut" and n["op"] == "pop"]
+            for what, starts, undo in (("counter", incs, decs), ("capacity", pushes_e, pops_e)):
+                w = None
+                for n in starts:
+                    # only exceptions raised after the increment / push matter
+                    w = w or ge.path(n.id, [ge.exc_exit], avoid=undo)
+                if w is None:
+                    rep.ok("C07.d", f"C07.d {ge.label}: when entering raises, the {what} is put back")
+                else:
+                    fn = next((n.func for n in live(ge) if "__enter__" in n.func and "FileBuffered" in n.func), "_FileBufferedContext.__enter__")
+                    rep.fail("C07.d", norm_key("C07.d", fn, "raises", what),
+                             f"{fn}: entering the backend-wide context can raise (lowering the capacity forces a flush, which can meet a file changed by someone else) after the "
+                             f"{'context counter was incremented' if what == 'counter' else 'previous capacity was pushed'}; __exit__ is not called when __enter__ raises, so "
+                             f"{'the class stays buffered forever and later writes never reach the files' if what == 'counter' else 'the stack keeps a stale element and a later exit restores the wrong capacity'}",
+                             ge.witness(w), ge.label)
         for count in (1, 2):
             b, g = A.ctx_exit_graph(cls, "backend", count, 0)
             rep.context(g.label, True)
